@@ -195,7 +195,7 @@ def r07c(ctx, rep, cr):
         defs, uses = A.Defs(f), A.Uses(f)
         creates = [c for c in A.calls(f) if FILE_WRITE_OPEN.search(c.resolved) or re.search(r'File::create$', c.generic)]
         renames = [c for c in A.calls(f) if re.search(r'fs::rename$', c.resolved) or re.search(r'fs::rename$', c.generic)]
-        writes = [c for c in A.calls(f) if re.search(r'Write>::write_all$|Write::write_all$|Write>::write$', c.resolved + ' ' + c.generic)]
+        writes = [c for c in A.calls(f) if re.search(r'Write>::write_all$|Write::write_all$|Write>::write$|zstd::stream::(functions::)?copy_encode$|io::copy$', c.resolved + ' ' + c.generic)]
         if not creates or not renames or not writes:
             rep.violation('R07c', f, 'shape', f.loc(), 'anchor-missing: create (%d) / write_all (%d) / rename (%d)' % (len(creates), len(writes), len(renames)))
             continue
@@ -239,6 +239,21 @@ def r07c(ctx, rep, cr):
             rep.violation('R07c', f, 'write-after-rename', f.loc(late[0].line), 'the file is written after it was renamed into place')
         else:
             rep.holds('R07c', f, 'rename last', '')
+        # a buffering writer around the temp file must be flushed (Ok) before the rename: what sits in its buffer
+        # reaches the file only at drop time, after the rename, with errors swallowed
+        buffered = [l for l, t in enumerate(f.locals) if re.match(r'^(std::io::)?(BufWriter|LineWriter)<', t) or re.match(r'^zstd::(stream::)?(write::)?(Encoder|AutoFinishEncoder)<', t)]
+        if buffered:
+            fl = [c for c in A.calls(f) if re.search(r'Write>::flush$|Write::flush$|BufWriter<.*>::into_inner$|BufWriter::<W>::into_inner$|Encoder.*::finish$', c.resolved + ' ' + c.generic)]
+            okf = set()
+            for c in fl:
+                okf |= A.call_outcome(f, c, uses).ok
+            Rf = A.reachable(f, [0], cut_edges=okf)
+            if not fl or not okf or rn.bb in Rf:
+                rep.violation('R07c', f, 'rename-before-flush', f.loc(rn.line),
+                              'the temp file is written through a buffering writer and renamed into place on a path with no successful flush: the '
+                              'buffered tail is written after the rename (at drop), so a crash or write error leaves a truncated file at the snapshot path')
+            else:
+                rep.holds('R07c', f, 'flush→rename', 'buffered writer flushed before the rename')
         okr = A.call_outcome(f, rn, uses).ok
         if lib.success_return_reachable(f, [0], cut_edges=okr):
             rep.violation('R07c', f, 'ok-without-rename', f.loc(), 'the save can return Ok without having renamed the temp file into place')
